@@ -1111,8 +1111,14 @@ def check_doc(ctx: C.Ctx, doc, pending: List[DocCheck], sels=None) -> DocCheck:
              branch="doc:" + str(doc.get("kind")))
     ctx.branch("pages:" + ("0" if n == 0 else "1" if n == 1 else "2-9" if n < 10 else "10+"))
     if chk.first_fail is not None:
-        ctx.fail(shrink_doc(ctx, chk, ctx.rng))
-        chk.first_fail_reported = True
+        # minimise the first two failures of each kind; later ones are reported as found
+        seen = getattr(ctx, "_c04_shrunk", None)
+        if seen is None:
+            seen = {}
+            setattr(ctx, "_c04_shrunk", seen)
+        k = chk.first_fail.what
+        seen[k] = seen.get(k, 0) + 1
+        ctx.fail(shrink_doc(ctx, chk, ctx.rng) if seen[k] <= 2 else chk.first_fail)
     pending.append(chk)
     return chk
 
@@ -1131,9 +1137,8 @@ def gen_doc(ctx: C.Ctx, i: int):
     return doc
 
 
-def run_render_table(ctx: C.Ctx) -> None:
-    """The translated CTM table and begin_page on their own: every rotation x random boxes, against the real
-    PDFPageInterpreter.process_page / PDFLayoutAnalyzer.begin_page driven with a stub page."""
+def _render_impl(rot, box, pt) -> str:
+    """process_page / begin_page of the real code driven with a stub page: 'bbox(4) a b c d image-of-pt(2)'."""
     from pdfminer.converter import PDFLayoutAnalyzer
     from pdfminer.pdfinterp import PDFPageInterpreter, PDFResourceManager
 
@@ -1150,7 +1155,56 @@ def run_render_table(ctx: C.Ctx) -> None:
         def end_page(self, page):
             pass
     rm = PDFResourceManager()
-    lines, impl, inputs = [], [], []
+    p = Page()
+    p.mediabox = box   # type: ignore[attr-defined]
+    p.rotate = rot     # type: ignore[attr-defined]
+    dev = Dev(rm)
+    try:
+        PDFPageInterpreter(rm, dev).process_page(p)   # type: ignore[arg-type]
+        a, b, c, d, e, f = (F(v) for v in dev.seen_ctm)
+        img = (a * pt[0] + c * pt[1] + e, b * pt[0] + d * pt[1] + f)
+        return f"{box_txt(dev.seen_bbox)} {box_txt((a, b, c, d) + img)}"
+    except Exception as ex:  # noqa: BLE001
+        return "EXC:" + type(ex).__name__
+
+
+def run_render_one(ctx: C.Ctx, rot, box, pt, batch=None) -> None:
+    x0, y0, x1, y1 = box
+    out = _render_impl(rot, box, pt)
+    line = f"render {rot} {box_txt(box)} {fs(pt[0])} {fs(pt[1])}"
+    inp = {"rotate": rot, "mediabox": [str(v) for v in box], "pt": [str(v) for v in pt]}
+    ctx.case(("ctm", rot, box, pt), rot % 360 != 0, branch=f"ctm-table:rot{rot}" if rot in
+             (0, 90, 180, 270) else "ctm-table:other")
+    if rot in (0, 90, 180, 270) and x0 <= x1 and y0 <= y1:
+        want = spec_render(rot, box, pt)
+        if want != out:
+            ctx.fail(C.Failure("process_page/begin_page: the MediaBox does not land on (0,0,w',h') turned clockwise "
+                               "by Rotate", {"render": inp}, want, out, {"op": "render", "rotate": rot}))
+    if batch is not None:
+        batch.append((line, out, inp))
+    elif ctx.driver is not None:
+        flush_render(ctx, [(line, out, inp)])
+
+
+def flush_render(ctx: C.Ctx, batch) -> None:
+    if ctx.driver is None or not batch:
+        return
+    lines = [b[0] for b in batch]
+    for (_, i_out, inp), m_out in zip(batch, ctx.driver.ask(lines)):
+        if i_out != m_out:
+            ctx.disagree("render", inp, i_out, m_out)
+    for (_, i_out, inp), s_out in zip(batch, ctx.driver.ask(["spec." + ln for ln in lines])):
+        ctx.branch("lean-spec.render" + (":outside-domain" if s_out == "outside-domain" else ""))
+        if s_out != "outside-domain" and i_out != s_out:
+            ctx.fail(C.Failure("process_page/begin_page differ from the Lean specification of the page "
+                               "coordinate system", {"render": inp}, s_out, i_out,
+                               {"op": "spec.render", "rotate": inp["rotate"]}))
+
+
+def run_render_table(ctx: C.Ctx) -> None:
+    """The translated CTM table and begin_page on their own: every rotation x random boxes, against the real
+    PDFPageInterpreter.process_page / PDFLayoutAnalyzer.begin_page driven with a stub page."""
+    batch: List[Any] = []
     for i in range(ctx.n(120, 4000)):
         rng = ctx.rng
         rot = [0, 90, 180, 270, 45, 360][i % 6] if i % 7 else rng.randint(-400, 800)
@@ -1159,37 +1213,8 @@ def run_render_table(ctx: C.Ctx) -> None:
         if i % 5 == 4:
             x0, x1 = x1, x0
         pt = (dy(rng, -300, 900), dy(rng, -300, 900))
-        p = Page()
-        p.mediabox = (x0, y0, x1, y1)   # type: ignore[attr-defined]
-        p.rotate = rot                  # type: ignore[attr-defined]
-        dev = Dev(rm)
-        try:
-            PDFPageInterpreter(rm, dev).process_page(p)   # type: ignore[arg-type]
-            a, b, c, d, e, f = (F(v) for v in dev.seen_ctm)
-            img = (a * pt[0] + c * pt[1] + e, b * pt[0] + d * pt[1] + f)
-            out = f"{box_txt(dev.seen_bbox)} {box_txt((a, b, c, d) + img)}"
-        except Exception as ex:  # noqa: BLE001
-            out = "EXC:" + type(ex).__name__
-        lines.append(f"render {rot} {box_txt((x0, y0, x1, y1))} {fs(pt[0])} {fs(pt[1])}")
-        impl.append(out)
-        inputs.append({"rotate": rot, "mediabox": [str(v) for v in (x0, y0, x1, y1)], "pt": [str(v) for v in pt]})
-        ctx.case(("ctm", rot, x0, y0, x1, y1, pt), rot % 360 != 0, branch=f"ctm-table:rot{rot}" if rot in
-                 (0, 90, 180, 270) else "ctm-table:other")
-        if rot in (0, 90, 180, 270) and x0 <= x1 and y0 <= y1:
-            want = spec_render(rot, (x0, y0, x1, y1), pt)
-            if want != out:
-                ctx.fail(C.Failure("process_page/begin_page: the MediaBox does not land on (0,0,w',h') turned clockwise "
-                                   f"by Rotate {rot}", {"render": inputs[-1]}, want, out, {"op": "render", "rotate": rot}))
-    if ctx.driver is not None:
-        for inp, i_out, m_out in zip(inputs, impl, ctx.driver.ask(lines)):
-            if i_out != m_out:
-                ctx.disagree("render", inp, i_out, m_out)
-        for inp, i_out, s_out in zip(inputs, impl, ctx.driver.ask(["spec." + ln for ln in lines])):
-            ctx.branch("lean-spec.render" + (":outside-domain" if s_out == "outside-domain" else ""))
-            if s_out != "outside-domain" and i_out != s_out:
-                ctx.fail(C.Failure("process_page/begin_page differ from the Lean specification of the page "
-                                   "coordinate system", {"render": inp}, s_out, i_out,
-                                   {"op": "spec.render", "rotate": inp["rotate"]}))
+        run_render_one(ctx, rot, (x0, y0, x1, y1), pt, batch)
+    flush_render(ctx, batch)
 
 
 def run_rotate_table(ctx: C.Ctx) -> None:
@@ -1248,6 +1273,9 @@ def replay(ctx: C.Ctx, doc, from_corpus: bool = False, pending=None) -> None:
         sel = inp.get("selection")
         sels = [(sel["page_numbers"], sel["maxpages"])] if sel else None
         check_doc(ctx, inp["doc"], pending, sels=sels)
+    elif "render" in inp:
+        r = inp["render"]
+        run_render_one(ctx, int(r["rotate"]), tuple(F(x) for x in r["mediabox"]), tuple(F(x) for x in r["pt"]))
     elif "rotate" in inp and "mediabox" not in inp:
         from pdfminer.pdfpage import PDFPage
         r = int(inp["rotate"])
@@ -1265,7 +1293,7 @@ def run(ctx: C.Ctx) -> None:
     run_rotate_table(ctx)
     run_render_table(ctx)
     run_depth_probe(ctx, pending)
-    n = ctx.n(160, 6000)
+    n = ctx.n(400, 8000)
     for i in range(n):
         if not ctx.time_left():
             ctx.notes.append(f"time budget reached after {i} of {n} documents")
